@@ -174,7 +174,14 @@ ClauseA_Fsm(ps, rxh, wait, ret) ==
 EchoThenReply(ps) ==
   \E i, j \in 1..Len(ps) : i < j /\ ps[i].kind = "echo" /\ ps[j].kind \in {"reply", "null"}
                              /\ \A h \in 1..(i-1) : ~Good(ps[h].kind)
+(* ... and a proper reply that overtakes its echo (C07: "when a reply is awaited or arrives first - the matching
+   reply"): the first good packet is the reply, the echo follows - the reply must still be what is returned *)
+ReplyThenEcho(ps) ==
+  \E i, j \in 1..Len(ps) : i < j /\ ps[i].kind = "reply" /\ ps[j].kind = "echo"   \* (a 0418 null entry that
+                             \* overtakes the echo is left open: the code knows that exception only after the echo)
+                             /\ \A h \in 1..(i-1) : ~Good(ps[h].kind)
 ClauseB_Fsm(ps, rxh, wait, ret) ==
-  (wait /\ rxh # NoHdr /\ EchoThenReply(ps) /\ NoOpen(ps)) => (ret # 0 /\ ps[ret].kind \in {"reply", "null"})
+  (wait /\ rxh # NoHdr /\ (EchoThenReply(ps) \/ ReplyThenEcho(ps)) /\ NoOpen(ps))
+     => (ret # 0 /\ ps[ret].kind \in {"reply", "null"})
 
 ====
